@@ -2,6 +2,8 @@ import GoLevel.Proofs.DurableView
 import GoLevel.Proofs.ManifestRead
 import GoLevel.Proofs.Batch
 import GoLevel.Proofs.DurableBytesExample
+import GoLevel.Proofs.DurableCreate
+import GoLevel.Gen.Consts
 /-!
 # Property C04 — crash consistency
 
@@ -48,7 +50,15 @@ Negative results (explicit traces, `by decide`): removing the flushed journal be
 loses an acknowledged write; a rotation that drops the journal/sequence numbers (D2 before its repair)
 makes flushed data invisible; `SetMeta` before the manifest `Sync` makes the DB unopenable; a torn manifest
 record whose scalar fields are kept (D22, the code as found) loses an acknowledged write; a crash between
-the creation of the first manifest and the first `SetMeta` leaves a directory `Open` refuses (D12).
+the creation of the first manifest and the first `SetMeta` leaves a directory `Open` refuses (D12, the code as
+found: `Cfg.manifestsAloneAreNoDB = false`).
+
+The creation of the DB is covered as well (`crash_consistent_created`, `crash_consistent_bytes_created`): the
+runs of `Dur.bigStep` start on an empty storage, `Open` runs `session.create` (`Create`, record, `Sync`, `SetMeta`
+of manifest 1) and goes on with `Dur.step` from `Dur.created`; a crash inside the creation leaves at most manifest
+files without `CURRENT`, which the next `Open` takes for "no DB" (`Cfg.manifestsAloneAreNoDB`, commit 1dcbac1,
+tied to the source by `code_creation_window_guard`) and creates the DB again.  `init_is_created`: the start state
+`Dur.init` of the other theorems is what `openDB` reaches from `Dur.created`.
 -/
 namespace GoLevel.C04
 open GoLevel GoLevel.Dur
@@ -302,11 +312,77 @@ theorem d22_torn_manifest_record_loses_write :
     losesAcked { failedRecordLeavesNoTrace := false } { tornM := fun _ => true } flushUpToAppend = some true := by
   decide
 
-/-- **D12.**  A crash between the creation of the first manifest and the first `SetMeta`: files without
-    `CURRENT`, which `Open` refuses although nothing was ever acknowledged. -/
+/-- **D12 (the code as found, `manifestsAloneAreNoDB = false`).**  A crash between the creation of the first
+    manifest and the first `SetMeta`: files without `CURRENT`, which `Open` refuses although nothing was ever
+    acknowledged — here as a run of the machine with the creation in front: `Create`, the record, `Sync`, crash;
+    the next `Open` fails, and so does every later one (`bigStep` has no step). -/
 theorem d12_creation_window :
-    openError {} { current := none, manifests := [(1, ⟨[{ snapshot := true, jn := some 0, sq := some 0, nf := 2 }], []⟩)] }
-      = some .corrupted := by decide
+    openError { manifestsAloneAreNoDB := false }
+      { current := none, manifests := [(1, ⟨[{ snapshot := true, jn := some 0, sq := some 0, nf := 2 }], []⟩)] }
+      = some .corrupted ∧
+    (bigRun { manifestsAloneAreNoDB := false } init0 [.c .ok false, .c .ok false, .c .ok false, .ccrash {}]).map
+      (fun b => (openError { manifestsAloneAreNoDB := false } b.disk,
+                 (bigStep { manifestsAloneAreNoDB := false } b (.c .ok false)).isSome)) =
+      some (some .corrupted, false) := by decide
+
+/-- … repaired (commit 1dcbac1): the same storage is "no DB", `Open` creates it again -/
+example : openError {} { current := none, manifests := [(1, ⟨[snap0], []⟩)] } = none := by decide
+example : (bigRun {} init0 [.c .ok false, .c .ok false, .c .ok false, .ccrash {}, .c .ok false, .c .ok false,
+    .c .ok false, .c .ok false]).map (fun b => decide (b.disk = created.2)) = some true := by decide
+
+/-- the configuration the extractor reads off the source tree for the three flags repaired last -/
+def codeCfg : Cfg :=
+  { discardKeepsTablesWhenUncertain := Gen.discardGuardsUncertainManifest
+    cleanupChecksCurrent := Gen.newManifestCleanupChecksCurrent
+    cleanupKeepsWhenGetMetaFails := Gen.newManifestCleanupChecksCurrent
+    manifestsAloneAreNoDB := Gen.recoverNoMetaNeedsData }
+
+/-- the model follows the code in the tree: `session.recover` turns "not exist" into "corrupted" only when the
+    storage holds a journal or a table (`tools/extract`: the error is raised inside
+    `if jt, _ := s.stor.List(TypeJournal|TypeTable); !noMeta || len(jt) > 0`, `noMeta` from `GetMeta`'s error) -/
+theorem code_creation_window_guard :
+    codeCfg.manifestsAloneAreNoDB = true ∧ Gen.recoverNoMetaNeedsData = true ∧ codeCfg = {} := by decide
+
+/-! ## the creation of the DB in front -/
+
+/-- the start state of the theorems above is what `openDB` reaches after `session.create` -/
+theorem init_is_created :
+    run {} created ([.recStep] ++ List.replicate 8 (.job false .ok)) = some init := by decide
+
+/-- **C04 from an empty storage.**  Every run of the machine with the creation of the DB in front
+    (`Dur.bigStep`: `Open` on an empty storage runs `session.create`, crashes inside it included, then the DB's
+    actions) without an injected storage fault ends in a state all of whose crash images open and are consistent
+    with the history — while the DB is being created: they open as "no DB" (the next `Open` creates it), nothing
+    has been issued. -/
+theorem crash_consistent_created {cfg : Cfg} (hg : cfg.Good) (hc : cfg.manifestsAloneAreNoDB = true)
+    {xs : List BAct} {b : Big}
+    (hal : bigAllowed cfg (fun _ a => a.noFault) CPc.noFault init0 xs = true) (hr : bigRun cfg init0 xs = some b)
+    {d' : Disk} (hi : IsCrashImage b.disk d') {c : UCmp} (hl : LawfulUCmp c) (hw : ∀ g ∈ issuedGrps b.st, g.wf) :
+    ∃ r, recoverR cfg d' = .ok r ∧ ∃ sel, Consistent c b.st r sel := by
+  obtain ⟨ch, rfl⟩ := hi
+  have hinv : BigInv cfg b := by
+    refine bigInv_run (fun s d a s' d' h hp hs => inv_step hg h hp hs) ?_ (bigInv_init0 cfg) xs hal hr
+    intro pc o gm hq _ ho
+    subst ho
+    simp [CPc.noFault] at hq
+  obtain ⟨r, hrec, hgood⟩ := hinv.open_ok hg.noTrace hc ch
+  exact ⟨r, hrec, consistent_of_good hl hw hgood⟩
+
+/-- a run through the creation with a crash after every one of its operations, then a write, a crash, the recovery -/
+def createdWithCrashes : List BAct :=
+  [.c .ok false, .ccrash {}, .c .ok false, .c .ok false, .ccrash { cutM := fun _ => 1 }, .c .ok false, .c .ok false,
+   .c .ok false, .ccrash {}, .c .ok false, .c .ok false, .c .ok false, .c .ok false] ++
+  (([Act.recStep] ++ List.replicate 8 (Act.job false .ok) ++
+    [Act.wAppend putKV true .ok, Act.wSync .ok, Act.wApply, Act.wPublish, Act.wAck, Act.crash {}, Act.recOpen] :
+    List Act).map BAct.a)
+
+example : bigAllowed {} (fun _ a => a.noFault) CPc.noFault init0 createdWithCrashes = true := by decide
+example : (bigRun {} init0 createdWithCrashes).map (fun b => (openError {} b.disk, b.st.phase)) =
+    some (none, .recovering) := by decide
+/-- every prefix: every crash image (nothing unsynced survives) opens -/
+example : (List.range (createdWithCrashes.length + 1)).all (fun n =>
+    ((bigRun {} init0 (createdWithCrashes.take n)).map fun b => openError {} (crashWith {} b.disk)) == some none) = true := by
+  decide
 
 /-! ## the byte level, end to end -/
 
@@ -443,6 +519,38 @@ theorem crash_consistent_bytes_reads {cfg : Cfg} (hg : cfg.Good) {s : St} {d : D
   obtain ⟨r, sel, h1, h2⟩ := crash_consistent_bytes hg hr x hx hd hi hl hw
   exact ⟨r.onDisk, sel, h1, consistentBytes_of h2⟩
 
+/-- **C04, bytes, from an empty storage**: `crash_consistent_bytes` for the machine with the creation of the DB in
+    front — every byte-level crash image taken inside `session.create` opens as "no DB". -/
+theorem crash_consistent_bytes_created {cfg : Cfg} (hg : cfg.Good) (hc : cfg.manifestsAloneAreNoDB = true)
+    {xs : List BAct} {b : Big}
+    (hal : bigAllowed cfg (fun _ a => a.noFault) CPc.noFault init0 xs = true) (hr : bigRun cfg init0 xs = some b)
+    (x : EncCtx) (hx : x.Valid) (hd : b.disk.Encodable) {bd' : ByteDisk}
+    (hi : IsByteCrashImage (encodeDisk x b.disk) bd')
+    {c : UCmp} (hl : LawfulUCmp c) (hw : ∀ g ∈ issuedGrps b.st, g.wf) :
+    ∃ r sel, recoverBytes cfg x.cmpName bd' = .ok r.onDisk ∧ Consistent c b.st r sel := by
+  have hinv : BigInv cfg b := by
+    refine bigInv_run (fun s d a s' d' h hp hs => inv_step hg h hp hs) ?_ (bigInv_init0 cfg) xs hal hr
+    intro pc o gm hq _ ho
+    subst ho
+    simp [CPc.noFault] at hq
+  have hnd : b.disk.manifests.Pairwise (fun p q => p.1 ≠ q.1) ∧ b.disk.journals.Pairwise (fun p q => p.1 ≠ q.1) := by
+    cases b with
+    | creating pc d =>
+      obtain ⟨_, h2, _, h4⟩ := (hinv : CDisk pc d).toIdle
+      refine ⟨?_, by show d.journals.Pairwise _; rw [h2]; exact List.Pairwise.nil⟩
+      show d.manifests.Pairwise _
+      rcases h4 with h4 | ⟨f, h4⟩ <;> rw [h4]
+      · exact List.Pairwise.nil
+      · exact List.pairwise_singleton _ _
+    | db s d => exact ⟨(hinv : Inv cfg s d).disk.mnodup, sorted_nodup (hinv : Inv cfg s d).disk.jsorted⟩
+  obtain ⟨d', ⟨ch, rfl⟩, e, hchk⟩ := crash_image_decodes x hx b.disk hd hnd.1 hnd.2 hi
+  obtain ⟨r, hrec, hgood⟩ := hinv.open_ok hg.noTrace hc ch
+  obtain ⟨sel, hsel⟩ := consistent_of_good hl hw hgood
+  refine ⟨r, sel, ?_, hsel⟩
+  unfold recoverBytes
+  rw [hchk, e, recoverR_onDisk cfg hg.noTrace, hrec]
+  rfl
+
 /-! ### explicit byte-level crash images -/
 
 /-- `exDisk` (manifest 1 with an unsynced edit, the frozen journal 3, the current journal 5 with one synced and two
@@ -537,7 +645,8 @@ def theorems : List String :=
    "GoLevel.C04.crash_consistent_core", "GoLevel.C04.crash_consistent", "GoLevel.C04.reopen_after_exit",
    "GoLevel.C04.early_journal_removal_loses_write", "GoLevel.C04.rotation_without_nums_hides_data",
    "GoLevel.C04.setmeta_before_sync_fails_to_reopen", "GoLevel.C04.d22_torn_manifest_record_loses_write",
-   "GoLevel.C04.d12_creation_window",
+   "GoLevel.C04.d12_creation_window", "GoLevel.C04.code_creation_window_guard", "GoLevel.C04.init_is_created",
+   "GoLevel.C04.crash_consistent_created", "GoLevel.C04.crash_consistent_bytes_created",
    "GoLevel.C04.recoverBytes_encodeDisk", "GoLevel.C04.crash_image_decodes", "GoLevel.C04.journal_image_decodes",
    "GoLevel.C04.manifest_image_decodes", "GoLevel.C04.silent_nil", "GoLevel.C04.silent_zeros",
    "GoLevel.C04.silent_rejected", "GoLevel.C04.crash_consistent_bytes", "GoLevel.C04.crash_consistent_bytes_reads"]
